@@ -1,7 +1,336 @@
-//! C17 — not implemented yet (see DESIGN.md section 4).
-use kit::Run;
-use serde_json::Value;
+//! C17 — BMFF mdat hashing is independent of how the payload is chunked.
+//! S-seq over feed histories: the mdat payload of a kit MP4 (3000 bytes; standard and large-size box header) is fed to
+//! Builder::hash_bmff_mdat_bytes as every 2-way split and every 3-way split whose two cuts lie in 1..=32, with
+//! fixed leaf size {none, 1 KB, 64 KB}; then update_hash_from_stream + sign_embeddable; the signed bytes are
+//! patched over `placeholder || free(n)` and the asset is read back.
+//! API semantics (DESIGN.md C17): the caller feeds the mdat PAYLOAD; room for the Merkle leaves is left in a free box.
+//!
+//! Mutants caught (tools/mutant_run.sh H <diff> C17 quick):
+//!   /verif/mutants/C17-skip8-every-call.diff
 
-pub fn run(_run: &Run, _replay: Option<&Value>) {
-    kit::ev::machinery("C17: check not implemented");
+use c2pa::{Builder, BuilderIntent, DigitalSourceType, Reader};
+use kit::{
+    assets::{be32, bx, fbx},
+    par, sdk, Run,
+};
+use serde_json::{json, Value};
+use std::io::Cursor;
+
+pub const PAYLOAD_LEN: usize = 3000;
+const FREE_ROOM: usize = 4000;
+
+pub fn payload(len: usize, salt: u8) -> Vec<u8> {
+    (0..len).map(|i| ((i * 7 + 3 + salt as usize) % 251) as u8).collect()
+}
+
+fn moov(chunk_offs: &[u32]) -> Vec<u8> {
+    let mvhd = fbx(b"mvhd", &{ let mut b = vec![0u8; 96]; b[8..12].copy_from_slice(&be32(1000)); b[12..16].copy_from_slice(&be32(1000)); b[16..20].copy_from_slice(&be32(0x00010000)); b[92..96].copy_from_slice(&be32(2)); b });
+    let tkhd = fbx(b"tkhd", &{ let mut b = vec![0u8; 80]; b[8..12].copy_from_slice(&be32(1)); b });
+    let mdhd = fbx(b"mdhd", &{ let mut b = vec![0u8; 20]; b[8..12].copy_from_slice(&be32(1000)); b });
+    let hdlr = fbx(b"hdlr", &{ let mut b = vec![0u8; 4]; b.extend_from_slice(b"vide"); b.extend(vec![0u8; 12]); b.push(0); b });
+    let vmhd = fbx(b"vmhd", &[0u8; 8]);
+    let dref = fbx(b"dref", &{ let mut b = be32(1).to_vec(); b.extend(bx(b"url ", &[0, 0, 0, 1])); b });
+    let dinf = bx(b"dinf", &dref);
+    let stsd = fbx(b"stsd", &be32(0));
+    let n = chunk_offs.len() as u32;
+    let stts = fbx(b"stts", &{ let mut b = be32(1).to_vec(); b.extend(be32(n)); b.extend(be32(500)); b });
+    let stsc = fbx(b"stsc", &{ let mut b = be32(1).to_vec(); b.extend(be32(1)); b.extend(be32(1)); b.extend(be32(1)); b });
+    let stsz = fbx(b"stsz", &{ let mut b = be32(16).to_vec(); b.extend(be32(n)); b });
+    let stco = fbx(b"stco", &{ let mut b = be32(n).to_vec(); for o in chunk_offs { b.extend(be32(*o)); } b });
+    let stbl = bx(b"stbl", &[stsd, stts, stsc, stsz, stco].concat());
+    let minf = bx(b"minf", &[vmhd, dinf, stbl].concat());
+    let mdia = bx(b"mdia", &[mdhd, hdlr, minf].concat());
+    let trak = bx(b"trak", &[tkhd, mdia].concat());
+    bx(b"moov", &[mvhd, trak].concat())
+}
+
+fn mdat_box(payload: &[u8], large: bool) -> Vec<u8> {
+    if large {
+        let mut v = be32(1).to_vec();
+        v.extend_from_slice(b"mdat");
+        v.extend_from_slice(&((payload.len() + 16) as u64).to_be_bytes());
+        v.extend_from_slice(payload);
+        v
+    } else {
+        bx(b"mdat", payload)
+    }
+}
+
+fn ftyp() -> Vec<u8> {
+    bx(b"ftyp", &[b'i', b's', b'o', b'm', 0, 0, 2, 0, b'i', b's', b'o', b'm', b'm', b'p', b'4', b'2'])
+}
+
+/// ftyp || after_ftyp || moov (stco pointing into the mdat payloads) || mdat...   (one sample chunk of 16 bytes per mdat x 2)
+pub fn mp4_with(mdats: &[Vec<u8>], large: bool, after_ftyp: &[u8]) -> Vec<u8> {
+    let ftyp = ftyp();
+    let hdr = if large { 16 } else { 8 };
+    let moov_len = moov(&vec![0; mdats.len() * 2]).len();
+    let mut offs = vec![];
+    let mut pos = ftyp.len() + after_ftyp.len() + moov_len;
+    for m in mdats {
+        offs.push((pos + hdr) as u32);
+        offs.push((pos + hdr + 16) as u32);
+        pos += hdr + m.len();
+    }
+    let mut v = ftyp;
+    v.extend_from_slice(after_ftyp);
+    v.extend(moov(&offs));
+    for m in mdats {
+        v.extend(mdat_box(m, large));
+    }
+    v
+}
+
+#[derive(Clone, Debug)]
+pub struct Case {
+    /// cut positions inside the payload of mdat 0 (strictly increasing, 0 < c < len); empty = single call
+    pub cuts: Vec<usize>,
+    /// fixed leaf size in KB (0 = variable leaves)
+    pub leaf_kb: usize,
+    pub large: bool,
+    /// number of mdat boxes (1 or 2); with 2 the second one is fed with the same cuts
+    pub mdats: usize,
+}
+impl Case {
+    pub fn to_json(&self) -> Value {
+        json!({"cuts": self.cuts, "leaf_kb": self.leaf_kb, "large": self.large, "mdats": self.mdats})
+    }
+    pub fn from_json(v: &Value) -> Case {
+        Case {
+            cuts: v["cuts"].as_array().map(|a| a.iter().filter_map(|x| x.as_u64().map(|y| y as usize)).collect()).unwrap_or_default(),
+            leaf_kb: v["leaf_kb"].as_u64().unwrap_or(0) as usize,
+            large: v["large"].as_bool().unwrap_or(false),
+            mdats: v["mdats"].as_u64().unwrap_or(1) as usize,
+        }
+    }
+    pub fn id(&self) -> String {
+        format!("cuts={:?} leaf={}KB {} mdats={}", self.cuts, self.leaf_kb, if self.large { "large" } else { "std" }, self.mdats)
+    }
+    fn cfg(&self) -> String {
+        format!("header={} leaf={} mdats={}", if self.large { "large" } else { "std" }, if self.leaf_kb == 0 { "variable".to_string() } else { format!("{}KB", self.leaf_kb) }, self.mdats)
+    }
+    fn first_chunk_class(&self) -> &'static str {
+        match self.cuts.first() {
+            None => "whole",
+            Some(c) if *c <= 8 => "<=8",
+            Some(_) => ">8",
+        }
+    }
+}
+
+pub struct Obs {
+    /// (reads that gave Valid, reads that did not) — more than one read only for assets with several mdat boxes
+    pub reads: (u32, u32),
+    pub state: String,
+    pub failures: Vec<String>,
+    /// the `merkle` member of the reported BMFF hash assertion
+    pub merkle: Value,
+}
+
+/// Runs the whole flow; Err(step: error) when any SDK call fails.
+pub fn flow(c: &Case) -> Result<Result<Obs, String>, String> {
+    flow_n(c, 1)
+}
+
+/// `repeat` > 1: read the patched asset exactly that many times (to expose nondeterministic validation).
+pub fn flow_n(c: &Case, repeat: u32) -> Result<Result<Obs, String>, String> {
+    par::guard(|| -> Result<Obs, String> {
+        let mime = "video/mp4";
+        let ctx = sdk::ctx().with_signer(sdk::SendSigner(sdk::fixture_signer("ed25519")));
+        let mut b = Builder::from_context(ctx).with_definition(r#"{"title":"c17"}"#).map_err(|e| format!("definition: {e:?}"))?;
+        b.set_intent(BuilderIntent::Create(DigitalSourceType::DigitalCapture));
+        if c.leaf_kb > 0 {
+            b.set_bmff_hash_fixed_leaf_size(c.leaf_kb);
+        }
+        let ph = b.placeholder(mime).map_err(|e| format!("placeholder: {e:?}"))?;
+        let mdats: Vec<Vec<u8>> = (0..c.mdats).map(|i| payload(PAYLOAD_LEN, i as u8 * 17)).collect();
+        let mut after = ph.clone();
+        after.extend(bx(b"free", &vec![0u8; FREE_ROOM]));
+        let asset = mp4_with(&mdats, c.large, &after);
+        for (id, m) in mdats.iter().enumerate() {
+            let mut prev = 0usize;
+            for cut in c.cuts.iter().copied().chain(std::iter::once(m.len())) {
+                b.hash_bmff_mdat_bytes(id, &m[prev..cut], c.large).map_err(|e| format!("hash_bmff_mdat_bytes: {e:?}"))?;
+                prev = cut;
+            }
+        }
+        b.update_hash_from_stream(mime, &mut Cursor::new(&asset)).map_err(|e| format!("update_hash_from_stream: {e:?}"))?;
+        let signed = b.sign_embeddable(mime).map_err(|e| format!("sign_embeddable: {e:?}"))?;
+        let room = after.len();
+        if signed.len() + 8 > room {
+            kit::ev::machinery(format!("C17: signed manifest {} does not fit in the {} bytes reserved by the harness", signed.len(), room));
+        }
+        let fl = ftyp().len();
+        let mut patched = asset[..fl].to_vec();
+        patched.extend_from_slice(&signed);
+        patched.extend(bx(b"free", &vec![0u8; room - signed.len() - 8]));
+        patched.extend_from_slice(&asset[fl + room..]);
+        if patched.len() != asset.len() {
+            kit::ev::machinery("C17: patched asset length differs");
+        }
+        // With several mdat boxes the SDK's Merkle validation is itself nondeterministic on this tree (it zips the Merkle maps
+        // with the values() of a HashMap); so such an asset is read up to `max_reads` times and counts as Valid when any
+        // read says so (a wrong pairing cannot make a mismatching leaf match). Single-mdat assets are read once.
+        let max_reads = if c.mdats > 1 { repeat.max(24) } else { repeat.max(1) };
+        let mut reads = (0u32, 0u32);
+        let mut best: Option<Reader> = None;
+        let mut last: Option<Reader> = None;
+        for _ in 0..max_reads {
+            let rd = Reader::from_context(sdk::ctx()).with_stream(mime, Cursor::new(&patched)).map_err(|e| format!("read: {e:?}"))?;
+            if sdk::state_name(rd.validation_state()) == "Valid" {
+                reads.0 += 1;
+                best = Some(rd);
+                if repeat <= 1 { break; }
+            } else {
+                reads.1 += 1;
+                last = Some(rd);
+            }
+        }
+        let rd = best.or(last).unwrap_or_else(|| kit::ev::machinery("C17: no read performed"));
+        let failures: Vec<String> = kit::canon::codes(&rd).into_iter().filter(|x| x.contains("/failure")).collect();
+        let j: Value = serde_json::from_str(&rd.json()).unwrap_or(Value::Null);
+        if std::env::var("VERIF_DUMP").is_ok() {
+            eprintln!("{}", serde_json::to_string(&j["validation_results"]["activeManifest"]["failure"]).unwrap_or_default());
+        }
+        let mut merkle = Value::Null;
+        if let Some(l) = j["active_manifest"].as_str() {
+            if let Some(a) = j["manifests"][l]["assertions"].as_array() {
+                for x in a {
+                    if x["label"].as_str().unwrap_or("").starts_with("c2pa.hash.bmff") {
+                        merkle = x["data"]["merkle"].clone();
+                    }
+                }
+            }
+        }
+        Ok(Obs { reads, state: sdk::state_name(rd.validation_state()).to_string(), failures, merkle })
+    })
+}
+
+fn judge(run: &Run, c: &Case, reference: Option<&Value>) {
+    let r = flow(c);
+    run.eval();
+    let cfg = c.cfg();
+    let fc = c.first_chunk_class();
+    match r {
+        Err(p) => {
+            run.outcome("panic");
+            run.violation(format!("panic {cfg} first_chunk{fc}"), format!("{}: {p}", c.id()), c.to_json());
+        }
+        Ok(Err(e)) => {
+            run.outcome(format!("error:{}", e.split(':').next().unwrap_or("")));
+            run.violation(format!("flow-error {cfg} first_chunk{fc} step={}", e.split(':').next().unwrap_or("")), format!("{}: {e}", c.id()), c.to_json());
+        }
+        Ok(Ok(o)) => {
+            run.outcome(o.state.clone());
+            if !c.cuts.is_empty() {
+                run.nontrivial(c.id());
+            }
+            if o.state != "Valid" {
+                let code = o.failures.first().cloned().unwrap_or_default();
+                let code = code.rsplit(':').next().unwrap_or("").to_string();
+                run.violation(format!("not-valid {cfg} first_chunk{fc} code={code}"),
+                    format!("{}: patched asset reads {} with {:?}", c.id(), o.state, o.failures), c.to_json());
+            }
+            if c.leaf_kb > 0 {
+                if let Some(want) = reference {
+                    if &o.merkle != want {
+                        run.outcome("leaves-differ");
+                        run.violation(format!("leaves-differ {cfg} first_chunk{fc}"),
+                            format!("{}: recorded merkle maps differ from the single-call feed: {} vs {}", c.id(), o.merkle, want), c.to_json());
+                    }
+                }
+            }
+        }
+    }
+}
+
+pub fn run(run: &Run, replay: Option<&Value>) {
+    run.rule("histories = ways of feeding the 3000-byte mdat payload of the kit MP4 to hash_bmff_mdat_bytes: every 2-way split (cut 1..2999) and every 3-way split whose two cuts lie in 1..=32, \
+              for fixed leaf size {variable, 1 KB, 64 KB} x {standard, large-size} mdat header (thorough: also two mdat boxes); each history is followed by update_hash_from_stream, sign_embeddable, \
+              in-place patch and Reader. non-trivial = distinct histories with at least one cut that ran to a verdict. The single-call feed of each configuration is the reference for the recorded leaves.");
+    run.assume("assets with two mdat boxes are read up to 24 times and count as Valid when any read is Valid, because Merkle validation of several mdat boxes is itself nondeterministic on this tree (reported separately as nondeterministic-validation)");
+    run.assume("the caller feeds the mdat payload (after the box header) and leaves room for the Merkle leaves in a free box after the placeholder, as documented for Builder::placeholder");
+    if let Some(c) = replay {
+        let case = Case::from_json(c);
+        let reference = flow(&Case { cuts: vec![], ..case.clone() }).ok().and_then(|r| r.ok()).map(|o| o.merkle);
+        match flow(&case) {
+            Ok(Ok(o)) => println!("replay {}: state {} failures {:?} merkle {}", case.id(), o.state, o.failures, o.merkle),
+            Ok(Err(e)) => println!("replay {}: error {e}", case.id()),
+            Err(p) => println!("replay {}: panic {p}", case.id()),
+        }
+        judge(run, &case, reference.as_ref());
+        return;
+    }
+    let thorough = run.tier.is_thorough();
+    let mut configs: Vec<(usize, bool, usize)> = vec![];
+    for leaf in [0usize, 1, 64] { for large in [false, true] { configs.push((leaf, large, 1)); } }
+    if thorough {
+        for leaf in [0usize, 1] { for large in [false, true] { configs.push((leaf, large, 2)); } }
+    }
+    // repeated validation of one correctly built asset: every read must give the same verdict
+    for (mdats, large) in [(1usize, false), (2, false), (2, true)] {
+        let c = Case { cuts: vec![], leaf_kb: 1, large, mdats };
+        match flow_n(&c, 32) {
+            Ok(Ok(o)) => {
+                run.evals(32);
+                run.outcome(format!("repeat-read:{}valid/{}invalid", o.reads.0, o.reads.1));
+                if mdats == 2 && !large {
+                    run.sample(json!({"case": c.to_json(), "reads_valid": o.reads.0, "reads_not_valid": o.reads.1}));
+                }
+                if o.reads.0 > 0 && o.reads.1 > 0 {
+                    run.violation(format!("nondeterministic-validation {}", c.cfg()),
+                        format!("{}: the same patched asset was read 32 times: {} Valid, {} not ({:?})", c.id(), o.reads.0, o.reads.1, o.failures), c.to_json());
+                } else if o.reads.0 == 0 {
+                    run.violation(format!("not-valid {} first_chunkwhole code=single-call", c.cfg()), format!("{}: single-call feed never reads Valid: {:?}", c.id(), o.failures), c.to_json());
+                }
+            }
+            x => kit::ev::machinery(format!("C17: repeat-read flow failed for {}: {:?}", c.id(), x.map(|r| r.map(|_| ())))),
+        }
+    }
+    run.space("repeated validation (32 reads) of the single-call asset: {1 mdat std, 2 mdats std, 2 mdats large} with 1 KB leaves", 3, true);
+    if std::env::var("VERIF_C17_TWO_FIRST").is_ok() {
+        configs.sort_by_key(|c| std::cmp::Reverse(c.2));
+    }
+    for (leaf, large, mdats) in configs {
+        let single = Case { cuts: vec![], leaf_kb: leaf, large, mdats };
+        // precondition: the single-call feed works and is deterministic (else the harness flow is wrong: machinery)
+        let base = match (flow(&single), flow(&single)) {
+            (Ok(Ok(a)), Ok(Ok(b))) => {
+                if a.state != "Valid" || a.merkle != b.merkle || a.state != b.state {
+                    kit::ev::machinery(format!("C17: single-call feed {} reads {} {:?} (second run {}); the harness flow is wrong or nondeterministic", single.id(), a.state, a.failures, b.state));
+                }
+                a
+            }
+            (a, _) => kit::ev::machinery(format!("C17: single-call feed fails for {}: {:?}", single.id(), a.map(|r| r.map(|_| ())))),
+        };
+        run.evals(2);
+        if leaf == 1 && !large && mdats == 1 {
+            run.sample(json!({"case": single.to_json(), "state": base.state, "merkle": base.merkle}));
+        }
+        let mut cases = vec![];
+        // quick tier: full 2-way sweep for the standard header with variable and 1 KB leaves; elsewhere the cuts around the header-skip, leaf and end boundaries
+        let full = thorough || (!large && leaf <= 1);
+        if full {
+            for c in 1..PAYLOAD_LEN { cases.push(Case { cuts: vec![c], leaf_kb: leaf, large, mdats }); }
+        } else {
+            let mut cs: Vec<usize> = (1..=64).collect();
+            cs.extend(1000..=1060);
+            cs.extend(2030..=2070);
+            cs.extend(PAYLOAD_LEN - 16..PAYLOAD_LEN);
+            for c in cs { cases.push(Case { cuts: vec![c], leaf_kb: leaf, large, mdats }); }
+        }
+        let n2 = cases.len();
+        let lim = if thorough || full { 32 } else { 16 };
+        for c1 in 1..=lim { for c2 in c1 + 1..=lim { cases.push(Case { cuts: vec![c1, c2], leaf_kb: leaf, large, mdats }); } }
+        run.space(&format!("{}: {} two-way splits ({}) + {} three-way splits with both cuts in 1..={lim}", single.cfg(), n2,
+            if full { "every cut 1..2999" } else { "cuts 1..=64, 1000..=1060, 2030..=2070, 2984..=2999" }, cases.len() - n2), cases.len() as u64, true);
+        par::for_each(&cases, |c| judge(run, c, Some(&base.merkle)));
+    }
+    let c = Case { cuts: vec![8], leaf_kb: 0, large: false, mdats: 1 };
+    if let Ok(Ok(o)) = flow(&c) { run.sample(json!({"case": c.to_json(), "state": o.state, "failures": o.failures})); }
+    let c = Case { cuts: vec![9], leaf_kb: 0, large: false, mdats: 1 };
+    if let Ok(Ok(o)) = flow(&c) { run.sample(json!({"case": c.to_json(), "state": o.state, "failures": o.failures})); }
+    let c = Case { cuts: vec![5, 20], leaf_kb: 1, large: true, mdats: 1 };
+    if let Ok(Ok(o)) = flow(&c) { run.sample(json!({"case": c.to_json(), "state": o.state, "failures": o.failures, "merkle": o.merkle})); }
+    run.evals(3);
 }
